@@ -637,7 +637,104 @@ Proof.
   rewrite Hp, H. reflexivity.
 Qed.
 
-(** * Examples for sections 16-21 *)
+(** * 22. registers.New as a public constructor: any identifier, any kind of value *)
+
+Definition is_key (id : string) : bool := String.eqb id key_id.
+
+(** the key is the only register 256 bits wide *)
+Lemma registry_key_bits :
+  forallb (fun i => Bool.eqb (r_bits i =? 256) (is_key (r_id i))) registry = true.
+Proof. vm_compute. reflexivity. Qed.
+
+Lemma bits_key id i : lookup id registry = Some i -> (r_bits i = 256 <-> id = key_id).
+Proof.
+  intro Hl. apply lookup_In in Hl. destruct Hl as [Hin Hid].
+  pose proof registry_key_bits as H. rewrite forallb_forall in H. specialize (H i Hin).
+  apply Bool.eqb_prop in H. unfold is_key in H. rewrite Hid in H. split; intro E.
+  - apply String.eqb_eq. rewrite <- H. apply N.eqb_eq. exact E.
+  - apply N.eqb_eq. rewrite H. apply String.eqb_eq. exact E.
+Qed.
+
+(** a register value handed to New: accepted iff both are integer registers or both the key,
+    and then it is the register OF THE IDENTIFIER ASKED FOR carrying the value cut to its type *)
+Lemma new_register_characterised id i src : lookup id registry = Some i -> valid src ->
+  new id (VReg src) =
+    if Bool.eqb (is_key id) (is_key (fst src)) then ROk (id, snd src mod 2 ^ r_bits i) else RErr.
+Proof.
+  intros Hl [j [Hj Hx]]. unfold new, is_key. rewrite Hl, Hj.
+  destruct (String.eqb id key_id) eqn:Ek; destruct (String.eqb (fst src) key_id) eqn:Ek'; cbn [Bool.eqb]; try reflexivity.
+  apply String.eqb_eq in Ek. apply String.eqb_eq in Ek'.
+  rewrite Ek' in Hj. rewrite Ek in Hl. rewrite Hl in Hj. injection Hj as <-.
+  rewrite N.mod_small by exact Hx. reflexivity.
+Qed.
+
+Lemma new_register_keeps id i src : lookup id registry = Some i -> valid src ->
+  is_key id = is_key (fst src) -> snd src < 2 ^ r_bits i -> new id (VReg src) = ROk (id, snd src).
+Proof.
+  intros Hl V Hk Hx. rewrite (new_register_characterised id i src Hl V), Hk, Bool.eqb_reflx.
+  rewrite N.mod_small by exact Hx. reflexivity.
+Qed.
+
+(** a value of the register's own width: the value of ANY register of the same Go width *)
+Lemma new_register_same_width id i src j : lookup id registry = Some i ->
+  lookup (fst src) registry = Some j -> r_bits i = r_bits j -> snd src < 2 ^ r_bits j ->
+  new id (VReg src) = ROk (id, snd src).
+Proof.
+  intros Hl Hj Hb Hx. apply (new_register_keeps id i src Hl).
+  - exists j. split; assumption.
+  - unfold is_key. destruct (String.eqb id key_id) eqn:Ek; destruct (String.eqb (fst src) key_id) eqn:Ek'; try reflexivity; exfalso.
+    + apply String.eqb_eq in Ek. apply String.eqb_neq in Ek'. apply Ek'.
+      apply (bits_key _ _ Hj). rewrite <- Hb. apply (bits_key _ _ Hl). exact Ek.
+    + apply String.eqb_neq in Ek. apply String.eqb_eq in Ek'. apply Ek.
+      apply (bits_key _ _ Hl). rewrite Hb. apply (bits_key _ _ Hj). exact Ek'.
+  - rewrite Hb. exact Hx.
+Qed.
+
+Lemma new_uint_keeps id i bits n : lookup id registry = Some i -> id <> key_id ->
+  n < 2 ^ r_bits i -> new id (VUint bits n) = ROk (id, n).
+Proof.
+  intros Hl Hk Hx. unfold new. rewrite Hl. apply String.eqb_neq in Hk. rewrite Hk.
+  rewrite N.mod_small by exact Hx. reflexivity.
+Qed.
+
+Lemma new_key_bytes b : List.length b = 32%nat -> new key_id (VBytes b) = ROk (key_id, le_value b).
+Proof.
+  intro H. unfold new.
+  destruct (lookup key_id registry) as [i|] eqn:Hl; [|vm_compute in Hl; discriminate].
+  rewrite String.eqb_refl, H. reflexivity.
+Qed.
+
+(** values of another kind than the register *)
+Definition incompatible (id : string) (v : value) : Prop :=
+  match v with
+  | VNil => False
+  | VUint _ _ => id = key_id                               (* an integer for the 32-byte register *)
+  | VBytes b => id <> key_id \/ List.length b <> 32%nat    (* bytes for an integer register; not 32 bytes *)
+  | VReg src => is_key id <> is_key (fst src)              (* an integer register's value for the key and v.v. *)
+  | VOther => True                                         (* no number and no bytes *)
+  end.
+
+Lemma new_incompatible id v : incompatible id v -> new id v = RErr.
+Proof.
+  intro H. unfold new. destruct (lookup id registry) as [i|]; [|reflexivity].
+  destruct v as [|bits n|b|src|]; cbn [incompatible] in H.
+  - destruct H.
+  - apply String.eqb_eq in H. rewrite H. reflexivity.
+  - destruct (String.eqb id key_id) eqn:Ek; [|reflexivity].
+    destruct H as [H|H]; [apply String.eqb_eq in Ek; contradiction|].
+    apply Nat.eqb_neq in H. rewrite H. reflexivity.
+  - destruct (lookup (fst src) registry); [|reflexivity]. unfold is_key in H.
+    destruct (String.eqb id key_id); destruct (String.eqb (fst src) key_id); try reflexivity; exfalso; apply H; reflexivity.
+  - reflexivity.
+Qed.
+
+(** whatever New returns is found under the identifier asked for, wherever it is put first *)
+Lemma new_find id v r l : value_wf v -> new id v = ROk r -> find id (r :: l) = Some r.
+Proof.
+  intros W H. destruct (new_valid id v r W H) as [_ E]. cbn [find]. rewrite E, String.eqb_refl. reflexivity.
+Qed.
+
+(** * Examples for sections 16-22 *)
 Open Scope string_scope.
 Lemma ex_ops :
   run [("TXT.ESTS", 7)]
@@ -703,4 +800,20 @@ Lemma ex_too_wide :
   yaml_scalar false "~" = Some YOther /\ yaml_scalar false "" = Some YOther /\ yaml_scalar false "True" = Some YOther /\
   orb (in_words "null" null_words) (in_words "null" bool_words) = true.
 Proof. repeat split; try discriminate; vm_compute; reflexivity. Qed.
+Lemma ex_new_values :
+  new "TXT.ERRORCODE" (VReg ("TXT.HEAP.BASE", 0x80000007)) = ROk ("TXT.ERRORCODE", 0x80000007) /\
+  new "TXT.ESTS" (VReg (key_id, 5)) = RErr /\ new key_id (VReg ("TXT.ESTS", 5)) = RErr /\
+  new key_id (VReg (key_id, 2 ^ 255 + 1)) = ROk (key_id, 2 ^ 255 + 1) /\
+  new "TXT.ESTS" (VReg ("TXT.HEAP.BASE", 0x1ff)) = ROk ("TXT.ESTS", 0xff) /\
+  new "ACM_POLICY_STATUS" (VReg ("TXT.ESTS", 0xff)) = ROk ("ACM_POLICY_STATUS", 0xff) /\
+  new "TXT.ESTS" (VBytes [1]) = RErr /\ new key_id (VUint 64 7) = RErr /\
+  find "TXT.ERRORCODE" [("TXT.HEAP.BASE", 0x80000007)] = None /\
+  valid ("TXT.HEAP.BASE", 0x80000007) /\ is_key "TXT.ERRORCODE" = is_key "TXT.HEAP.BASE" /\
+  incompatible "TXT.ESTS" (VReg (key_id, 5)) /\ incompatible key_id (VBytes [1; 2]).
+Proof.
+  repeat split; try (vm_compute; reflexivity); try discriminate.
+  - exists {| r_id := "TXT.HEAP.BASE"; r_bits := 32; r_ser := 4; r_parser := 4; r_addr := 4275241728 |}.
+    split; vm_compute; reflexivity.
+  - right. discriminate.
+Qed.
 Close Scope string_scope.
